@@ -134,6 +134,7 @@ func Run(sc *Scenario, hooks *Hooks) *Outcome {
 	ctx := context.Background()
 	// always installed (without bounds it only counts the hits)
 	pts := rig.InstallPoints(sc.PointSeed, sc.Points)
+	r.Points = pts
 	defer func() {
 		pts.Uninstall()
 		out.PointHits, out.PointSleeps = pts.Stats()
